@@ -214,10 +214,11 @@ def cases(seed, tier, shard, nshards):
         idx = {n: i for i, n in enumerate(atoms)}
         natoms = len(atoms)
         multiplied = 0
+        attr_first = None
         if coarse and rng.random() < 0.3:
             # the expansion operator behind a plain node: the node stands n times, what is written behind it (descriptors,
             # branches, the next node) belongs to / follows the LAST copy, and every later node counts from there
-            ks = [k for k, t in enumerate(tokens) if t[0] == 'atom' and len(t) == 3
+            ks = [k for k, t in enumerate(tokens) if t[0] == 'atom'
                   and not any(x[0] == 'ring' and x[2] == t[2] for x in tokens)]
             if ks:
                 k = rng.choice(ks)
@@ -226,6 +227,9 @@ def cases(seed, tier, shard, nshards):
                 tokens.insert(k + 1, ('mult', '|%d' % multiplied))
                 idx = {n: (i + multiplied - 1 if i >= at else i) for n, i in idx.items()}
                 natoms += multiplied - 1
+                # an annotation written in the multiplied node is that of its FIRST copy as far as the text reader goes
+                # (and never that of the node behind the last copy)
+                attr_first = (tokens[k][2], at)
         text = ''.join(tok_text(t) for t in tokens)
         clean = ''.join(tok_text(t, True) for t in tokens)
         exp_desc = {}
@@ -266,7 +270,7 @@ def cases(seed, tier, shard, nshards):
             prev = t
         if any(len(v) >= 2 for v in exp_desc.values()):
             feats.add('multi_desc_atom')
-        exp_attr = {str(idx[n]): attrs for n, (txt, attrs) in annots.items()}
+        exp_attr = {str(attr_first[1] if attr_first and n == attr_first[0] else idx[n]): attrs for n, (txt, attrs) in annots.items()}
         if annots:
             feats.add('annotation')
         if wildcard:
